@@ -249,8 +249,12 @@ class BreakpointHandler:
             variable_type, variable_length, index_string, target = match.groups()
             if variable_length == '':
                 variable_length = '1'
-            index = int(index_string[:-1]) if index_string else 0
-            variable_prefix = (variable_type, int(variable_length), index)
+            try:
+                index = int(index_string[:-1]) if index_string else 0
+                variable_prefix = (variable_type, int(variable_length), index)
+            except ValueError:  # more digits than python converts
+                show_message(f"the variable length / index of \"{query[:40]}...\" is not a usable number.", 'Debugger')
+                return
 
         if target in self.label_to_address:
             show_memory_address(variable_prefix, query, self.label_to_address[target], mem, None)
